@@ -670,6 +670,58 @@ impl Lockable<HeapBytes> for HeapBytes {
     }
 }
 
+/// Verification hooks: lets an out-of-tree monitor observe what the
+/// [`PageAlignedAllocator`] hands out and what it gives back.
+#[cfg(feature = "verif_hooks")]
+#[doc(hidden)]
+pub mod verif {
+    use std::sync::atomic::{AtomicUsize, Ordering};
+
+    /// Allocator events reported to the registered observer.
+    #[derive(Clone, Copy, Debug, PartialEq, Eq)]
+    pub enum Event {
+        /// A data region of `size` bytes starting at `addr` was handed out.
+        Alloc { addr: usize, size: usize },
+        /// The data region at `addr` is about to be returned to the system
+        /// allocator; `nonzero` bytes of its `size` bytes are not zero.
+        Release {
+            addr: usize,
+            size: usize,
+            nonzero: usize,
+        },
+    }
+
+    static OBSERVER: AtomicUsize = AtomicUsize::new(0);
+
+    /// Registers (or clears) the observer callback.
+    pub fn set_observer(observer: Option<fn(&Event)>) {
+        OBSERVER.store(observer.map(|f| f as usize).unwrap_or(0), Ordering::SeqCst);
+    }
+
+    #[inline]
+    pub(super) fn enabled() -> bool {
+        OBSERVER.load(Ordering::SeqCst) != 0
+    }
+
+    pub(super) fn emit(event: Event) {
+        let p = OBSERVER.load(Ordering::SeqCst);
+        if p != 0 {
+            let f: fn(&Event) = unsafe { std::mem::transmute::<usize, fn(&Event)>(p) };
+            f(&event);
+        }
+    }
+
+    pub(super) fn count_nonzero(ptr: *const u8, len: usize) -> usize {
+        let mut n = 0;
+        for i in 0..len {
+            if unsafe { std::ptr::read_volatile(ptr.add(i)) } != 0 {
+                n += 1;
+            }
+        }
+        n
+    }
+}
+
 #[derive(Clone)]
 /// Custom page-aligned allocator implementation. Creates blocks of page-aligned
 /// heap-allocated memory regions, with no-access pages before and after the
@@ -756,6 +808,12 @@ unsafe impl Allocator for PageAlignedAllocator {
             .map_err(|err| eprintln!("mprotect error = {:?}, in allocator", err))
             .ok();
 
+        #[cfg(feature = "verif_hooks")]
+        verif::emit(verif::Event::Alloc {
+            addr: slice.as_ptr() as usize,
+            size: layout.size(),
+        });
+
         unsafe { Ok(ptr::NonNull::new_unchecked(slice)) }
     }
 
@@ -779,6 +837,16 @@ unsafe impl Allocator for PageAlignedAllocator {
         dryoc_mprotect_readwrite(aft_protected_region)
             .map_err(|err| eprintln!("mprotect error = {:?}", err))
             .ok();
+
+        #[cfg(feature = "verif_hooks")]
+        if verif::enabled() {
+            let data = ptr.add(pagesize);
+            verif::emit(verif::Event::Release {
+                addr: data as usize,
+                size: layout.size(),
+                nonzero: verif::count_nonzero(data, layout.size()),
+            });
+        }
 
         #[cfg(unix)]
         {
